@@ -206,6 +206,10 @@ def check(ctx, src):
 
     ctx.rule("PEOI-GUARD", "PrematureEndOfInput (= ask for more input) is raised only after observing the end of input, so a complete but invalid text is never reported as incomplete")
     c19.check_peoi_guard(ctx, readerq.Reader(src))
+    from .. import core
+
+    ctx.rule("SRC-RESET", "the REPL reuses one reader: every new input must reset the reader's look-ahead and position state")
+    core.transfer(ctx, src, c19, {"SRC-RESET"})
     ctx.floor("REPL-ERR", 10)
     ctx.floor("REPL-CONT", 4)
 
